@@ -162,6 +162,13 @@ pub const MMIO_REGION: u32 = 8;
 /// Flat encoding of the ordered events (Extract/InitIO.v). Releases (dealloc, unshare, queue_unset, the
 /// drop of the transport) belong to property C09 and are left out.
 pub fn enc_events(r: &Records) -> Vec<u128> {
+    enc_events_with(r, &|region, write, off, width, val| {
+        let off = if region == MMIO_REGION { off as u128 } else { (1u128 << 64) + off as u128 };
+        vec![20, write as u128, off, width as u128, val as u128]
+    })
+}
+/// the same with the register accesses rendered by `acc(region, write, off, width, val)`
+pub fn enc_events_with(r: &Records, acc: &dyn Fn(u32, bool, u64, u8, u64) -> Vec<u128>) -> Vec<u128> {
     let mut o: Vec<u128> = vec![];
     let (mut ia, mut is, mut iq) = (0usize, 0usize, 0usize);
     for (pos, e) in r.log.iter().enumerate() {
@@ -181,10 +188,7 @@ pub fn enc_events(r: &Records) -> Vec<u128> {
             Ev::Share { len, dir, .. } => { let ap = r.ap_share.get(is).copied().unwrap_or(false); is += 1; o.extend([13, *len as u128, *dir as u128, ap as u128]); }
             Ev::Notify(q) => o.extend([14, *q as u128]),
             Ev::AckInterrupt => o.push(15),
-            Ev::Mmio { region, write, off, width, val } => {
-                let off = if *region == MMIO_REGION { *off as u128 } else { (1u128 << 64) + *off as u128 };
-                o.extend([20, *write as u128, off, *width as u128, *val as u128]);
-            }
+            Ev::Mmio { region, write, off, width, val } => o.extend(acc(*region, *write, *off, *width, *val)),
             Ev::Dealloc { .. } | Ev::Unshare { .. } | Ev::QueueUnset(_) | Ev::TransportDrop | Ev::MmioMap { .. }
             | Ev::Store { .. } | Ev::StoreDesc { .. } | Ev::Fence | Ev::Spin(_) => {}
         }
@@ -207,6 +211,16 @@ pub fn items(ev: &[u128]) -> Vec<Vec<u128>> {
     let mut v = vec![]; let mut i = 0usize;
     while i < ev.len() {
         let n = match ev[i] { 2 | 10 | 15 => 1, 1 | 3 | 4 | 6 | 7 | 14 => 2, 11 | 12 => 3, 13 => 4, 5 | 8 | 20 => 5, 9 => 6, _ => ev.len() - i };
+        let n = n.min(ev.len() - i);
+        v.push(ev[i..i + n].to_vec()); i += n;
+    }
+    v
+}
+/// the same for the PCI rendering (21 win w off width val)
+pub fn items21(ev: &[u128]) -> Vec<Vec<u128>> {
+    let mut v = vec![]; let mut i = 0usize;
+    while i < ev.len() {
+        let n = match ev[i] { 2 | 10 | 15 => 1, 1 | 3 | 4 | 6 | 7 | 14 => 2, 11 | 12 => 3, 13 => 4, 5 | 8 | 20 => 5, 9 | 21 => 6, _ => ev.len() - i };
         let n = n.min(ev.len() - i);
         v.push(ev[i..i + n].to_vec()); i += n;
     }
@@ -424,6 +438,150 @@ pub fn mmio_transport(version: u32, d: Drv, features: u64, default_max: u32, con
     mmio::register(MMIO_REGION, MMIO_VBASE, size.max(0x100), Box::new(FuncDev(st.clone())));
     let header = NonNull::new(MMIO_VBASE as *mut VirtIOHeader).unwrap();
     let t = unsafe { MmioTransport::new(header, size) }.ok()?;
+    Some((t, st))
+}
+
+// ------------------------------------------------------------------------------------------------
+// a functional virtio-pci function (VirtIO 1.2, 4.1.4) for the real PciTransport: configuration space and
+// capabilities from scen/c11.rs (`build_dev`), one 64 KiB memory BAR holding the four structures, whose
+// registers behave (feature words behind the selectors, status, per-queue registers behind queue_select,
+// queue_notify_off per queue, config_generation, device configuration bytes, ISR)
+pub const PCI_REGION: u32 = 9;
+pub const PCI_BAR_PADDR: u32 = 0xfe00_0000;
+pub const PCI_BAR_VBASE: usize = 0x2000_0000_0000;
+pub const PCI_BAR_BITS: u32 = 16;
+pub const PCI_COMMON_LEN: u32 = 56;
+/// where the capabilities put the structures inside the BAR, and what the device answers about notifications
+#[derive(Clone, Debug)]
+pub struct PciGeo {
+    pub common_off: u32, pub isr_off: u32, pub cfg_off: u32, pub notify_off: u32,
+    /// length in bytes of the notification capability, notify_off_multiplier
+    pub notify_len: u32, pub mult: u32,
+    /// queue_notify_off per queue (queues beyond the list answer 0)
+    pub noffs: Vec<u16>,
+    /// device_status before the driver touches the device (what a previous driver left behind)
+    pub init_status: u8,
+    /// false: the status register reads back what was written; true: FEATURES_OK is kept only if the accepted
+    /// features are a subset of the offered ones (3.1.1 step 6)
+    pub checking_status: bool,
+}
+impl PciGeo {
+    pub fn plain(nq: usize) -> PciGeo {
+        PciGeo { common_off: 0, isr_off: 0x1000, cfg_off: 0x2000, notify_off: 0x3000, notify_len: 0x100, mult: 4, noffs: (0..nq as u16).collect(), init_status: 0, checking_status: false }
+    }
+    /// (window, offset inside it) of a BAR offset: 0 common, 1 notify, 2 ISR, 3 device configuration, 9 none
+    pub fn classify(&self, cfg_len: usize, off: u64, width: u8) -> (u128, u128) {
+        let inside = |base: u32, len: u64| off >= base as u64 && off + width as u64 <= base as u64 + len;
+        if inside(self.common_off, PCI_COMMON_LEN as u64) { (0, (off - self.common_off as u64) as u128) }
+        else if inside(self.notify_off, self.notify_len as u64) { (1, (off - self.notify_off as u64) as u128) }
+        else if inside(self.isr_off, 1) { (2, (off - self.isr_off as u64) as u128) }
+        else if inside(self.cfg_off, cfg_len as u64) { (3, (off - self.cfg_off as u64) as u128) }
+        else { (9, off as u128) }
+    }
+}
+#[derive(Clone, Copy, Default)]
+pub struct PQueue { pub size: Option<u16>, pub desc: u64, pub drv: u64, pub dev: u64, pub enable: u16 }
+/// consecutive reads of device_status (no write in between) after which the device answers 0 whatever was written:
+/// a wait of the transport that would never end (`Drop` polls for the reset) terminates, and `runaway` says so
+pub const POLL_LIMIT: u32 = 10_000;
+pub struct PciFuncState {
+    pub polls: u32, pub runaway: bool,
+    pub geo: PciGeo, pub features: u64, pub driver_features: u64, pub dsel: u32, pub fsel: u32, pub status: u8, pub qsel: u16,
+    pub nqueues: u16, pub default_max: u32, pub queues: HashMap<u16, PQueue>, pub config: Vec<u8>, pub isr: u8, pub script: DevScript,
+}
+pub struct PciFuncDev(pub Rc<RefCell<PciFuncState>>);
+fn part(v: u64, byte: u64, width: u8) -> u64 { let x = v >> (8 * byte); if width >= 8 { x } else { x & ((1u64 << (8 * width as u32)) - 1) } }
+fn put_part(v: &mut u64, byte: u64, width: u8, x: u64) {
+    let mask = if width >= 8 { u64::MAX } else { ((1u64 << (8 * width as u32)) - 1) << (8 * byte) };
+    *v = (*v & !mask) | ((x << (8 * byte)) & mask);
+}
+impl MmioDev for PciFuncDev {
+    fn read(&mut self, off: u64, width: u8) -> u64 {
+        let mut s = self.0.borrow_mut();
+        let (win, o) = { let n = s.config.len(); s.geo.classify(n, off, width) };
+        let o = o as u64;
+        let qsel = s.qsel;
+        match win {
+            0 => {
+                let q = s.queues.get(&qsel).copied().unwrap_or_default();
+                match o {
+                    0 => s.dsel as u64,
+                    4 => (if s.dsel == 0 { s.features as u32 } else if s.dsel == 1 { (s.features >> 32) as u32 } else { 0 }) as u64,
+                    8 => s.fsel as u64,
+                    12 => (if s.fsel == 0 { s.driver_features as u32 } else if s.fsel == 1 { (s.driver_features >> 32) as u32 } else { 0 }) as u64,
+                    16 => 0xffff, 18 => s.nqueues as u64,
+                    20 => {
+                        s.polls += 1;
+                        if s.polls > POLL_LIMIT { s.runaway = true; s.status = 0; }
+                        let mut st = s.status;
+                        if s.geo.checking_status && s.driver_features & !s.features != 0 { st &= !8; }
+                        st as u64
+                    }
+                    21 => s.script.next_gen(0) as u8 as u64,
+                    22 => qsel as u64,
+                    24 => { let m = s.script.script(qsel).max; (match m { Some(m) => m as u16, None => q.size.unwrap_or(s.default_max as u16) }) as u64 }
+                    26 => 0xffff,
+                    28 => match s.script.script(qsel).used { Some(u) => u as u64, None => q.enable as u64 },
+                    30 => s.geo.noffs.get(qsel as usize).copied().unwrap_or(0) as u64,
+                    32..=39 => part(q.desc, o - 32, width), 40..=47 => part(q.drv, o - 40, width), 48..=55 => part(q.dev, o - 48, width),
+                    _ => 0,
+                }
+            }
+            2 => { let v = s.isr; s.isr = 0; v as u64 }
+            3 => { let mut v = 0u64; for i in 0..width as usize { v |= (*s.config.get(o as usize + i).unwrap_or(&0) as u64) << (8 * i); } v }
+            _ => 0,
+        }
+    }
+    fn write(&mut self, off: u64, width: u8, val: u64) {
+        let mut s = self.0.borrow_mut();
+        let (win, o) = { let n = s.config.len(); s.geo.classify(n, off, width) };
+        let o = o as u64;
+        let qsel = s.qsel;
+        s.polls = 0;
+        match win {
+            0 => match o {
+                0 => s.dsel = val as u32, 8 => s.fsel = val as u32,
+                12 => { let hi = s.fsel == 1; if s.fsel <= 1 { let mut f = s.driver_features; set_half(&mut f, hi, val as u32); s.driver_features = f; } }
+                20 => { s.status = val as u8; if val as u8 == 0 { s.queues.clear(); s.driver_features = 0; s.dsel = 0; s.fsel = 0; s.qsel = 0; } }
+                22 => s.qsel = val as u16,
+                24 => s.queues.entry(qsel).or_default().size = Some(val as u16),
+                28 => {
+                    let dm = s.default_max as u16;
+                    let q = s.queues.entry(qsel).or_default(); q.enable = val as u16;
+                    if val as u16 == 1 { let (d, a, u, n) = (q.desc, q.drv, q.dev, q.size.unwrap_or(dm)); s.script.registered(qsel, n as u32, d, a, u); }
+                }
+                32..=39 => put_part(&mut s.queues.entry(qsel).or_default().desc, o - 32, width, val),
+                40..=47 => put_part(&mut s.queues.entry(qsel).or_default().drv, o - 40, width, val),
+                48..=55 => put_part(&mut s.queues.entry(qsel).or_default().dev, o - 48, width, val),
+                _ => {}
+            },
+            1 => { if s.script.serve { s.script.service(val as u16); } }
+            _ => {}
+        }
+    }
+}
+/// build the PCI function, map its BAR and probe it with the real `PciTransport::new`
+pub fn pci_transport(d: Drv, features: u64, default_max: u32, config: Vec<u8>, cfg_present: bool, geo: PciGeo)
+    -> Option<(virtio_drivers::transport::pci::PciTransport, Rc<RefCell<PciFuncState>>)> {
+    use crate::scen::c11::{build_dev, cap, layout};
+    use crate::scen::c12::{Spec, Twin};
+    use virtio_drivers::transport::pci::bus::{DeviceFunction, PciRoot};
+    let config = if cfg_present { config } else { vec![] };
+    let specs = [Spec::Mem { ty: 0, pf: false, k: PCI_BAR_BITS, m: 32, addr: PCI_BAR_PADDR }];
+    let (bars, starts) = layout(&specs);
+    let mut caps = vec![cap(0x40, 1, 0, geo.common_off, PCI_COMMON_LEN), cap(0x58, 3, 0, geo.isr_off, 1)];
+    if cfg_present { caps.push(cap(0x70, 4, 0, geo.cfg_off, config.len() as u32)); }
+    let mut n = cap(0x88, 2, 0, geo.notify_off, geo.notify_len); n.mult = geo.mult; caps.push(n);
+    let dev = build_dev((0x1040 + d.device_id()) << 16 | 0x1af4, 0x0006, 0, bars, &starts, &[0; 6], &caps, 0, 0);
+    let st = Rc::new(RefCell::new(PciFuncState { polls: 0, runaway: false, status: geo.init_status, geo, features, driver_features: 0, dsel: 0, fsel: 0, qsel: 0,
+        nqueues: d.nqueues() as u16, default_max, queues: HashMap::new(), config, isr: 0, script: DevScript::default() }));
+    for w in &dev.maps {
+        hal::add_mmio_window(w.paddr, w.size, PCI_BAR_VBASE);
+        mmio::register(PCI_REGION, PCI_BAR_VBASE, w.size as usize, Box::new(PciFuncDev(st.clone())));
+    }
+    let df = DeviceFunction { bus: 0, device: 1, function: 0 };
+    let mut root = PciRoot::new(Twin::single(df, dev.f.clone()));
+    let t = virtio_drivers::transport::pci::PciTransport::new::<ApHal, _>(&mut root, df).ok()?;
     Some((t, st))
 }
 
